@@ -70,6 +70,9 @@ def scn_cancel(ctx):
         ctx.check("no-start-after-successful-cancel", not late_start, "%s: callable started after cancel() returned True" % name)
         ctx.check("no-delegate-submit-after-successful-cancel", not late_submit, "%s: delegate.submit after cancel() returned True" % name)
         ctx.check("stays-cancelled", fin == ("cancelled",), "%s: cancel() returned True, final outcome %r" % (name, fin))
+        # at any layer: the work behind a flat-mapped inner future must not start afterwards either
+        late_inner = [x for x in items if x["k"] == "inner_work_ran" and x["seq"] > s0]
+        ctx.check("no-inner-work-after-successful-cancel", not late_inner, "%s: the inner future returned by the flat_map function was left to run after cancel() returned True" % name)
     elif any_rets:
         ctx.reach("cancel-false")
         # every cancel was refused: the future completes with the callable's own outcome
@@ -135,7 +138,7 @@ POOL = ["pool:retry", "pool:retry+map"]
 
 ASSUMPTIONS = ["the callable fails on its first `fails` invocations (Boom) so that retry layers have something to retry; retry layers: max_attempts=2, sleep=1",
                "'running' = the callable has started and not ended for the whole duration of the cancel() call"]
-BOUNDS_TEXT = {"quick": "7 executor entries + 11 f_* + 10 two-layer stacks over a manual delegate + 4 stacks over thread_pool(1); 1-2 cancellers x 1-2 calls; P<=1",
+BOUNDS_TEXT = {"quick": "map/flat_map entries also with a scheduling point inside the user function; 7 executor entries + 11 f_* + 10 two-layer stacks over a manual delegate + 4 stacks over thread_pool(1); 1-2 cancellers x 1-2 calls; P<=1",
                "thorough": "2 cancellers x 2 calls; P<=2"}
 MUST_REACH = {"*": ["cancel-true", "cancel-false", "retry-cancel-checked", "cancel-while-running", "propagation-checked"]}
 BUDGET = {"quick": 120.0, "thorough": 600.0}
@@ -148,6 +151,9 @@ def plan(tier, seed):
         heavy = n in ("retry", "poll", "throttle", "timeout", "f_timeout")
         items.append(dict(scenario="cancel", params=dict(entry=n, cancellers=2 if not heavy else 1, calls=1),
                           bounds=dict(P=(1 if q else 2))))
+    for n in ("map", "flat_map", "f_map", "f_flat_map"):
+        # cancel() issued while the user's map / flat_map function is running on the worker
+        items.append(dict(scenario="cancel", params=dict(entry=n, cancellers=1, calls=1, fn_points=True), bounds=dict(P=(1 if q else 2))))
     for n in STK:
         items.append(dict(scenario="cancel", params=dict(entry=n, cancellers=1, calls=2 if not q else 1), bounds=dict(P=0 if q else 1)))
     for n in POOL:
